@@ -15,7 +15,8 @@ import isogen
 import readcheck
 
 LEVEL = "proof"
-CONE = ["Props/C12.v", "Proofs/LayoutKit.v", "Proofs/LayoutProofs.v", "Proofs/LayoutMore.v", "Proofs/LayoutOpen.v", "Proofs/LayoutShift.v",
+CONE = ["Props/C12.v", "Props/C12Tree.v", "Proofs/LayoutTreeMono.v", "Proofs/LayoutTreeRefute.v", "Proofs/LayoutTreeKit.v", "Proofs/LayoutTree.v", "Proofs/LayoutTree2.v",
+        "Proofs/LayoutTree3.v", "Proofs/LayoutTreeEx.v", "Proofs/LayoutKit.v", "Proofs/LayoutProofs.v", "Proofs/LayoutMore.v", "Proofs/LayoutOpen.v", "Proofs/LayoutShift.v",
         "Proofs/LayoutTailFixed.v", "Proofs/LayoutTailTbl.v"]
 ITER = {b"moov", b"trak", b"mdia", b"minf", b"stbl", b"udta", b"mvex"}
 PADDABLE = {b"mvhd", b"tkhd", b"mdhd", b"vmhd", b"smhd", b"stts", b"ctts", b"stsc", b"stsz", b"stss", b"stco", b"co64", b"hdlr"}
@@ -147,7 +148,7 @@ def logical(impl, payload_start):
 
 
 def check(rep):
-    proof_ok, details = common.proof_layer(rep, "C12", CONE, extra_targets=["theories/Extract/Extract.vo"])
+    proof_ok, details = common.proof_layer(rep, ["C12", "C12Tree"], CONE, extra_targets=["theories/Extract/Extract.vo"])
     with common.Lock():
         hb_ok, hb_log = common.harness_build(["run"])
         ob_ok, ob_log = common.ocaml_build()
